@@ -127,7 +127,7 @@ var (
 	OptStatesCap  = 1 << 20
 	OptPoolChoice = false
 	OptMaxSteps   = 20000
-	OptWatchdog   = 30 * time.Second
+	OptWatchdog   = 120 * time.Second
 )
 
 type abortT struct{}
@@ -547,10 +547,13 @@ func Run(prefix, expectN []int32, setup func(s *Sched), body func()) *Exec {
 		body()
 	}()
 	m.pk.unpark()
+	// the watchdog only has to tell a wedged engine from a slow machine: generous, and longer for scenarios that
+	// raise the step cap (a watchdog expiry is an ERROR of the check, never a verdict)
+	wd := OptWatchdog + time.Duration(s.MaxSteps/10000)*time.Second
 	if watchdog == nil {
-		watchdog = time.NewTimer(OptWatchdog)
+		watchdog = time.NewTimer(wd)
 	} else {
-		watchdog.Reset(OptWatchdog)
+		watchdog.Reset(wd)
 	}
 	select {
 	case <-s.endc:
@@ -560,7 +563,7 @@ func Run(prefix, expectN []int32, setup func(s *Sched), body func()) *Exec {
 	case <-watchdog.C:
 		buf := make([]byte, 1<<20)
 		n := runtime.Stack(buf, true)
-		fmt.Printf("ERROR engine watchdog: execution did not end within %v\n%s\n", OptWatchdog, buf[:n])
+		fmt.Printf("ERROR engine watchdog: execution did not end within %v\n%s\n", wd, buf[:n])
 		exitProcess(2)
 	}
 	x := &Exec{Points: s.Points, Crash: s.Crash, CrashFrame: s.CrashFrame, EngineErr: s.EngineErr, Livelock: s.Livelock, Diverged: s.Diverged, Threads: len(s.threads)}
